@@ -12,7 +12,10 @@
      - the parser (model Syn/Parse.v of parser2.go, property C03, tied to the implementation by C03's correspondence
        run) returns an AST or an error for EVERY token list and EVERY configuration - never a panic (the index into
        the operator table is always in range), and fuel (2*|ops|+12)*(|tokens|+2), linear in the token count, suffices.
-   What is NOT proved here: GenerateFunc (observed on every input that parses); wall-clock time and the absence of
+     - the optimizer calls inside Parse (model Syn/ParseOpt.v, the optimizer an arbitrary function that may panic on
+       any call): under the recover of parser2.Optimize at the three call sites Parse still returns an AST or an error.
+   What is NOT proved here: GenerateFunc (observed on every input that parses); what the optimizer of funcGen really
+   computes (it is universally quantified here); wall-clock time and the absence of
    a deadlock in the Go runtime are observed by the correspondence run (isolated worker processes with a watchdog).
 
    Vocabulary: ops_ok cfg = no operator contains NUL (Lex/TokProofs.v); Conc/TokChan.v: init toks k = Parse has started,
@@ -20,7 +23,7 @@
    tr are possible one after the other from s in the repaired system (with the deferred drain) and lead to s'. *)
 From P2 Require Import Base.Prelude Lex.Token Lex.Tok Lex.TokProofs.
 From P2 Require Conc.TokChan Conc.TokChanProofs Conc.TokSysProofs.
-From P2 Require Syn.Parse Syn.ParseTotal.
+From P2 Require Syn.Parse Syn.ParseTotal Syn.ParseOpt Syn.ParseOptProofs Syn.ParseOptSame.
 Local Open Scope N_scope.
 
 (* scanning is total, with fuel linear in the input *)
@@ -63,6 +66,44 @@ Theorem scan_then_parse_total : forall (tc : tcfg) (pc : Parse.pcfg) ids rs,
   match Parse.parse pc ids (map strip_line (tokenize tc rs)) with Parse.POk _ | Parse.PErr => True | Parse.PPanic | Parse.POOF => False end.
 Proof. exact (fun tc pc ids rs => ParseTotal.parse_total pc ids (map strip_line (tokenize tc rs)) _ (le_n _)). Qed.
 
+(* ---- the optimizer calls inside Parse (Syn/ParseOpt.v: the parser model with parser2.Optimize where parser2.go
+   calls it - let value, func closure, final AST).  For EVERY optimizer - any function from trees to "a tree" or
+   "panics, leaving this tree behind", in particular one that panics on every call - every configuration, identifier
+   chain and token list: as long as every call site runs it under the recover of parser2.Optimize, Parse returns an
+   AST or an error with the same linear fuel; it never panics, whatever the fuel *)
+Theorem parse_opt_total : forall (pc : Parse.pcfg) (optimizer : option (Ast.ast -> ParseOpt.ores)) (recovers : ParseOpt.osite -> bool),
+  (forall s, recovers s = true) ->
+  forall ids ts f, (f >= Parse.fuel_for pc ts)%nat ->
+  match ParseOpt.oparse_fuel pc optimizer recovers f ids ts with
+  | Parse.POk _ | Parse.PErr => True | Parse.PPanic | Parse.POOF => False end.
+Proof. exact ParseOptProofs.oparse_total. Qed.
+
+Theorem parse_opt_no_panic : forall (pc : Parse.pcfg) (optimizer : option (Ast.ast -> ParseOpt.ores)) (recovers : ParseOpt.osite -> bool),
+  (forall s, recovers s = true) ->
+  forall f ids ts, ParseOpt.oparse_fuel pc optimizer recovers f ids ts <> Parse.PPanic.
+Proof. exact ParseOptProofs.oparse_no_panic. Qed.
+
+(* the model with the optimizer calls is the parser model of C03 when the optimizer changes nothing: no optimizer
+   (p.optimizer == nil) or the identity - for every fuel, so every theorem about Syn/Parse.v carries over *)
+Theorem parse_opt_no_opt_same_shape : forall (pc : Parse.pcfg) recovers f ids ts,
+  ParseOpt.oparse_fuel pc None recovers f ids ts = Parse.parse_fuel pc f ids ts
+  /\ ParseOpt.oparse_fuel pc (Some (fun a => ParseOpt.OOk a)) recovers f ids ts = Parse.parse_fuel pc f ids ts.
+Proof. exact (fun pc r f ids ts => conj (ParseOptSame.oparse_none_same pc r f ids ts) (ParseOptSame.oparse_identity_same pc r f ids ts)). Qed.
+
+(* the recover is what contains the panic (the statement "no panic at any site policy" is REFUTED): the program
+   `func g(a) 1; 1`, an optimizer that panics on every call; with the func closure optimized outside the recover
+   (opt(clo, ...) instead of Optimize(clo, ...)) the panic reaches the caller, under the recover an AST comes back *)
+Theorem parse_opt_unrecovered_site_refuted :
+  ParseOpt.oparse ParseOptSame.esc_cfg ParseOptSame.esc_opt (fun s => match s with ParseOpt.SiteFunc => false | _ => true end) [] ParseOptSame.esc_toks = Parse.PPanic
+  /\ exists a, ParseOpt.oparse ParseOptSame.esc_cfg ParseOptSame.esc_opt (fun _ => true) [] ParseOptSame.esc_toks = Parse.POk a.
+Proof. exact ParseOptSame.unrecovered_site_lets_panic_through. Qed.
+
+(* scanner and parser with optimizer composed *)
+Theorem scan_then_parse_opt_total : forall (tc : tcfg) (pc : Parse.pcfg) optimizer ids rs,
+  match ParseOpt.oparse pc optimizer (fun _ => true) ids (map strip_line (tokenize tc rs)) with
+  | Parse.POk _ | Parse.PErr => True | Parse.PPanic | Parse.POOF => False end.
+Proof. exact (fun tc pc o ids rs => ParseOptProofs.oparse_total pc o (fun _ => true) (fun _ => eq_refl) ids (map strip_line (tokenize tc rs)) _ (le_n _)). Qed.
+
 (* non-vacuity: an unterminated block comment, an invalid-UTF-8 replacement rune inside an operator, a NUL, an
    unterminated string; comments on *)
 Example C04_nonvacuous :
@@ -85,3 +126,8 @@ Print Assumptions no_blocking.
 Print Assumptions parse_cannot_deadlock.
 Print Assumptions parse_total.
 Print Assumptions scan_then_parse_total.
+Print Assumptions parse_opt_total.
+Print Assumptions parse_opt_no_panic.
+Print Assumptions parse_opt_no_opt_same_shape.
+Print Assumptions parse_opt_unrecovered_site_refuted.
+Print Assumptions scan_then_parse_opt_total.
